@@ -374,6 +374,9 @@ mod token;
 
 #[doc(hidden)]
 pub mod unicode;
+#[cfg(pest_parser_pest_verif)]
+#[doc(hidden)]
+pub mod verif;
 
 /// A trait which parser rules must implement.
 ///
